@@ -72,6 +72,8 @@ econf_err key_file_append(econf_file *kf) {
 
 econf_err getIntValueNum(econf_file key_file, size_t num, int32_t *result) {
   char *endptr;
+  if (key_file.file_entry[num].value == NULL)
+    return ECONF_KEY_HAS_NULL_VALUE;
   errno = 0;
   *result = strtol(key_file.file_entry[num].value, &endptr, 0);
   if (endptr == key_file.file_entry[num].value || errno == ERANGE || (errno != 0 && *result == 0))
@@ -81,6 +83,8 @@ econf_err getIntValueNum(econf_file key_file, size_t num, int32_t *result) {
 
 econf_err getInt64ValueNum(econf_file key_file, size_t num, int64_t *result) {
   char *endptr;
+  if (key_file.file_entry[num].value == NULL)
+    return ECONF_KEY_HAS_NULL_VALUE;
   errno = 0;
   *result = strtoll(key_file.file_entry[num].value, &endptr, 0);
   if (endptr == key_file.file_entry[num].value || errno == ERANGE || (errno != 0 && *result == 0))
@@ -90,6 +94,8 @@ econf_err getInt64ValueNum(econf_file key_file, size_t num, int64_t *result) {
 
 econf_err getUIntValueNum(econf_file key_file, size_t num, uint32_t *result) {
   char *endptr;
+  if (key_file.file_entry[num].value == NULL)
+    return ECONF_KEY_HAS_NULL_VALUE;
   errno = 0;
   *result = strtoul(key_file.file_entry[num].value, &endptr, 0);
   if (endptr == key_file.file_entry[num].value || errno == ERANGE || (errno != 0 && *result == 0))
@@ -99,6 +105,8 @@ econf_err getUIntValueNum(econf_file key_file, size_t num, uint32_t *result) {
 
 econf_err getUInt64ValueNum(econf_file key_file, size_t num, uint64_t *result) {
   char *endptr;
+  if (key_file.file_entry[num].value == NULL)
+    return ECONF_KEY_HAS_NULL_VALUE;
   errno = 0;
   *result = strtoull(key_file.file_entry[num].value, &endptr, 0);
   if (endptr == key_file.file_entry[num].value || errno == ERANGE || (errno != 0 && *result == 0))
@@ -108,6 +116,8 @@ econf_err getUInt64ValueNum(econf_file key_file, size_t num, uint64_t *result) {
 
 econf_err getFloatValueNum(econf_file key_file, size_t num, float *result) {
   char *endptr;
+  if (key_file.file_entry[num].value == NULL)
+    return ECONF_KEY_HAS_NULL_VALUE;
   errno = 0;
   *result = strtof(key_file.file_entry[num].value, &endptr);
   if (endptr == key_file.file_entry[num].value) /* do not check errno because it is a false alarm in ppc and S390 */
@@ -117,6 +127,8 @@ econf_err getFloatValueNum(econf_file key_file, size_t num, float *result) {
 
 econf_err getDoubleValueNum(econf_file key_file, size_t num, double *result) {
   char *endptr;
+  if (key_file.file_entry[num].value == NULL)
+    return ECONF_KEY_HAS_NULL_VALUE;
   errno = 0;
   *result = strtod(key_file.file_entry[num].value, &endptr);
   if (endptr == key_file.file_entry[num].value || errno == ERANGE || (errno != 0 && *result == 0))
